@@ -296,7 +296,29 @@ pub fn self_monitors(mon: &mut Monitor, w: &World, rig: &Rig, events: &[Ev], sna
     let mut last_persist: Option<&v2::ChonkyV2State> = None;
     for ev in events {
         match ev {
-            Ev::Persist(st) => last_persist = Some(st),
+            Ev::Persist(st) => {
+                last_persist = Some(st);
+                // C05 (theorem persisted_wf / DurableWf): whatever is made durable is a state a restart can resume from —
+                // its view is 0 or justified by a certificate recorded in the SAME durable state, and what it records verifies
+                let dhc = st.high_commit_qc.as_ref().map(|q| q.view().number.0);
+                let dht = st.high_timeout_qc.as_ref().map(|q| q.view.number.0);
+                let held = st.view_number.0 == 0
+                    || dhc.is_some_and(|v| v.wrapping_add(1) >= st.view_number.0)
+                    || dht.is_some_and(|v| v.wrapping_add(1) >= st.view_number.0);
+                if !held {
+                    out.oracle_fail(
+                        "durable_state_unjustified",
+                        "a state was made durable whose view is not justified by any certificate recorded in it (a crash right after this write restarts the replica in a view it holds no certificate for)",
+                        op.clone(),
+                    );
+                }
+                if st.high_commit_qc.as_ref().is_some_and(|q| q.verify(g, e, &sched).is_err())
+                    || st.high_timeout_qc.as_ref().is_some_and(|q| q.verify(g, e, &sched).is_err())
+                    || st.high_vote.as_ref().is_some_and(|v| v.verify(g, e).is_err())
+                {
+                    out.oracle_fail("durable_state_invalid", "a state was made durable that records a vote or certificate which does not verify", op.clone());
+                }
+            }
             Ev::Send(m) => {
                 if m.key != me || m.verify().is_err() {
                     out.oracle_fail("sent_bad_signature", "a message left the node that is not validly signed by its own key", op.clone());
